@@ -90,7 +90,7 @@ class Watch:
     """Run library calls under the work meter; an abort marks the case inconclusive for
     every property except C13 (which owns that verdict)."""
 
-    def __init__(self, res: Res, ref_n: int, fingerprints=False, scale=0.25):
+    def __init__(self, res: Res, ref_n: int, fingerprints=True, scale=0.25):
         from .. import bb
 
         self.bb = bb
@@ -101,6 +101,7 @@ class Watch:
 
     def __call__(self, fn, nodes=1):
         bb = self.bb
-        r, used = bb.metered(fn, int(bb.budget_for(self.n, nodes) * self.scale), self.fp)
+        # properties other than C13: a slow call is cut after 45 s (inconclusive case, never a verdict)
+        r, used = bb.metered(fn, int(bb.budget_for(self.n, nodes) * self.scale), self.fp, wall_limit=45.0)
         self.res.m("back_edges_per_call", used)
         return r
